@@ -45,6 +45,7 @@ type wat2cWorker struct {
 	scopeLabels     []string        // 嵌套的label查询, if/block/loop
 	scopeStackBases []int           // if/block/loop, 开始的栈位置
 	scopeResults    [][]token.Token // 对应块的返回值数量和类型
+	anonLabelCount  int             // block/loop/if without a label get a generated one (branches by depth need a C label)
 
 	useMathX  bool // 是否使用了 math_x 部分函数
 	use_R_u32 bool // R_u32
